@@ -3,6 +3,7 @@ import AlgoVerif.Proofs.C04Binomial
 import AlgoVerif.Proofs.C04Fib
 import AlgoVerif.Proofs.C04MaxDegree
 import AlgoVerif.Proofs.C04BinomialShape
+import AlgoVerif.Proofs.C04Mixed
 import AlgoVerif.Proofs.C04Gen
 /-!
 # C04 — heaps are priority queues (property theorems; helper lemmas in `Proofs/C04*.lean`)
@@ -152,6 +153,62 @@ example : (match (binomialImpl cmpAsc (fun a b : Int => a == b)).stateAfter (fun
   simp [Impl.stateAfter, Impl.mstep, binomialImpl, Binomial.step, update, Binomial.insert, Binomial.union,
     Binomial.merge, Binomial.consolidate, Binomial.consLoop, Binomial.new, Tree.leaf, Tree.deg,
     Binomial.sibSameOrder, Tree.link, cmpAsc, Tree.key, Binomial.mergeWith]
+
+/-! ## heaps of one family built with different comparators
+
+`NewBinomial` / `NewFibonacci` store the comparator in the heap and `Merge` only asserts the implementation type of
+its operand, so two heaps built with different comparator FUNCTIONS can be merged; the receiver's code then runs
+with the receiver's comparator on the operand's trees (`ImplC.run cmps`: heap `r` of the family is built with
+`cmps r`).  When all of them are comparators of one order — they agree in sign with a lawful `cmp` (`SignEq`), as
+`min`, `a - b` and `7 * (a - b)` do — the family is a family of priority queues of that order: every history is
+admitted by the Spec for `cmp`, Merge between any two of them included.  (For comparators of different orders —
+a min-heap merged into a max-heap — the property promises nothing about extremality: the Model still says what
+the code does and the harness compares it, the oracle then only claims the union of the entries.) -/
+
+/-- Binomial heaps built with different comparators of one order. -/
+theorem C04_binomial_mixed_comparators {K V : Type} (cmp : K → K → Int) (hc : LawfulCmp cmp) (eqV : V → V → Bool)
+    (cmps : Nat → K → K → Int) (hs : ∀ r, SignEq (cmps r) cmp) (ops : List (MOp K V)) :
+    Admitted cmp eqV (fun _ => []) ops ((binomialImplC eqV).run cmps ops) := by
+  rw [binomial_mixed_run cmp eqV cmps hs ops]
+  exact C04_binomial cmp hc eqV ops
+
+/-- Fibonacci heaps built with different comparators of one order. -/
+theorem C04_fibonacci_mixed_comparators {K V : Type} (cmp : K → K → Int) (hc : LawfulCmp cmp) (eqV : V → V → Bool)
+    (cmps : Nat → K → K → Int) (hs : ∀ r, SignEq (cmps r) cmp) (ops : List (MOp K V)) :
+    Admitted cmp eqV (fun _ => []) ops ((fibImplC eqV).run cmps ops) := by
+  rw [fib_mixed_run cmp eqV cmps hs ops]
+  exact C04_fibonacci cmp hc eqV ops
+
+/-- non-vacuity: heap 0 built with the normalised comparator, heap 1 with `a - b`, heap 2 with `7 * (a - b)`: the
+hypothesis holds, and a history that merges heap 1 into heap 0, heap 0 into heap 2 and drains heap 2 runs as the
+theorem says (both implementations). -/
+example : ∀ r, SignEq ((fun r : Nat => if r % 3 = 0 then cmpAsc else if r % 3 = 1 then cmpSub else cmpSub7) r) cmpAsc := by
+  intro r
+  show SignEq (if r % 3 = 0 then cmpAsc else if r % 3 = 1 then cmpSub else cmpSub7) cmpAsc
+  split
+  · exact SignEq.refl _
+  · split
+    · exact signEq_cmpSub
+    · exact signEq_cmpSub7
+example : (fibImplC (fun a b : Int => a == b)).run
+      (fun r : Nat => if r % 3 = 0 then cmpAsc else if r % 3 = 1 then cmpSub else cmpSub7)
+      [.on 0 (.insert 3 1), .on 1 (.insert 1 2), .on 1 (.insert 5 3), .on 1 .delete, .on 1 (.insert 4 4), .merge 0 1,
+       .on 2 (.insert 2 5), .merge 2 0, .on 0 .size, .on 2 .delete, .on 2 .delete, .on 2 .delete, .on 2 .delete,
+       .on 2 .delete] =
+    [.ok .unit, .ok .unit, .ok .unit, .ok (.kv (some (1, 2))), .ok .unit, .ok .unit, .ok .unit, .ok .unit,
+     .ok (.int 0), .ok (.kv (some (2, 5))), .ok (.kv (some (3, 1))), .ok (.kv (some (4, 4))),
+     .ok (.kv (some (5, 3))), .ok (.kv none)] := by
+  decide
+example : (binomialImplC (fun a b : Int => a == b)).run
+      (fun r : Nat => if r % 3 = 0 then cmpAsc else if r % 3 = 1 then cmpSub else cmpSub7)
+      [.on 0 (.insert 3 1), .on 1 (.insert 1 2), .on 1 (.insert 5 3), .on 1 .delete, .on 1 (.insert 4 4), .merge 0 1,
+       .on 2 (.insert 2 5), .merge 2 0, .on 0 .size, .on 2 .delete, .on 2 .delete] =
+    [.ok .unit, .ok .unit, .ok .unit, .ok (.kv (some (1, 2))), .ok .unit, .ok .unit, .ok .unit, .ok .unit,
+     .ok (.int 0), .ok (.kv (some (2, 5))), .ok (.kv (some (3, 1)))] := by
+  simp [ImplC.run, ImplC.runFrom, ImplC.mstep, binomialImplC, Binomial.step, update, Binomial.insert, Binomial.union,
+    Binomial.merge, Binomial.consolidate, Binomial.consLoop, Binomial.new, Tree.leaf, Tree.deg,
+    Binomial.sibSameOrder, Tree.link, cmpSub, cmpSub7, Tree.key, Binomial.mergeWith, Binomial.delete,
+    Binomial.findExt, Binomial.findExtLoop, Tree.children, Tree.val]
 
 /-! ## the second tie (binary heap): the Model REGENERATED from the source
 
